@@ -308,6 +308,17 @@ def r3(ctx):
                   "one file: cli > env > default")
     else:
         ctx.bad("C16.R3", key(f, "file-location"), site(f), "expected three alternative config-file loads (cli, env, default), found %d" % len(files))
+    # framework-level writes happen before the other sources: no subclass writes a setting after the merge
+    for ff in repo.funcs():
+        if ff.name == "load_config" and ff.cls is not None and ff.qualname != APP + ".Application.load_config" and repo.is_subclass(ff.cls.qualname, APP + ".BaseApplication"):
+            sup = [n for c, q in repo.calls_in(ff) if q and q.endswith(".load_config") and q != ff.qualname for n in nodes_with(ff, c)]
+            for c in method_calls(ff, "set"):
+                if tail(c.func.value) == "cfg":
+                    cn = nodes_with(ff, c)
+                    late = any(x in ff.cfg.reachable([s], follow_exc=False) for s in sup for x in cn)
+                    ctx.check("C16.R3", not late, key(ff, "write-after-merge|" + norm(c)), site(ff, c),
+                              "`%s` runs after the sources were merged: a framework default overrides what the configuration file / environment / command line said" % norm(c),
+                              "no setting written after the merge")
     fe = ctx.fn(repo.func(CFG + ".Config.get_cmd_args_from_env"))
     ctx.check("C16.R3", any(const(x, NO) == "GUNICORN_CMD_ARGS" for x in walk_own(fe.node)) and any("shlex.split" in norm(c.func) for c in walk_own(fe.node) if isinstance(c, ast.Call)), key(fe, "env-var"), site(fe),
               "GUNICORN_CMD_ARGS is not read/shlex-split", "shlex.split(GUNICORN_CMD_ARGS)")
